@@ -193,7 +193,7 @@ def rule_no_swallow(ctx, rep):
     n = 0
     for modname in ("codemodder.codemods.libcst_transformer", "codemodder.codemods.base_visitor", "codemodder.codemods.api"):
         mod = ctx.prog.module(modname)
-        for fn in [f for f in ctx.prog.functions.values() if f.module is mod]:
+        for fn in [f for f in ctx.prog.live_functions() if f.module is mod]:
             for tr in [t for t in walk_no_nested(fn.node) if isinstance(t, ast.Try)]:
                 for h in tr.handlers:
                     types = {"<bare>"} if h.type is None else {last_attr(e) or unparse(e) for e in (h.type.elts if isinstance(h.type, ast.Tuple) else [h.type])}
